@@ -64,7 +64,12 @@ where
 
         let processed_message = match group.process_message(&self.provider, protocol_message) {
             Ok(processed_message) => processed_message,
-            Err(ProcessMessageError::ValidationError(ValidationError::WrongEpoch)) => {
+            // Only commits take part in MIP-03 race resolution. A proposal (or any other
+            // non-commit message) from another epoch must never be treated as a "better
+            // commit" candidate, or re-delivering it would roll the group back.
+            Err(ProcessMessageError::ValidationError(ValidationError::WrongEpoch))
+                if content_type == ContentType::Commit =>
+            {
                 return Err(Error::ProcessMessageWrongEpoch(msg_epoch));
             }
             Err(ProcessMessageError::ValidationError(ValidationError::CannotDecryptOwnMessage)) => {
